@@ -42,10 +42,6 @@
 
 static int32_t matrixSslValidatePeerCerts(ssl_t *ssl,
         void *pkiData);
-static int32_t psCheckValidationResult(ssl_t *ssl,
-        psX509Cert_t *leaf);
-static void psCheckSetPathLenFailure(ssl_t *ssl,
-        psX509Cert_t *leaf);
 
 int32_t tls13ValidateCertChain(ssl_t *ssl)
 {
@@ -82,12 +78,12 @@ int32_t matrixSslValidatePeerCerts(ssl_t *ssl,
 
     validateRc = rc;
 
-    psCheckSetPathLenFailure(ssl, ssl->sec.cert);
-    rc = psCheckValidationResult(ssl,
-            ssl->sec.cert);
+    /* The most severe failure of the chain becomes the pending alert:
+       the same mapping as in TLS 1.2 and below. */
+    matrixSslSetCertChainAlert(ssl, ssl->sec.cert);
+    rc = (ssl->err == SSL_ALERT_NONE) ? PS_SUCCESS : MATRIXSSL_ERROR;
 
-    /* psCheckValidationResult only looks at the authStatus values it has
-       an alert for.  A failure reported through the return value of
+    /* A failure reported through the return value of
        matrixValidateCertsExt (e.g. PS_ARG_FAIL, PS_PARSE_FAIL) or through
        any other authStatus than PS_CERT_AUTH_PASS is a failure as well. */
     if (validateRc < 0)
@@ -100,16 +96,6 @@ int32_t matrixSslValidatePeerCerts(ssl_t *ssl,
         {
             rc = PS_CERT_AUTH_FAIL;
         }
-    }
-
-    /* Same rule as in the TLS 1.2 path: without any loaded CA a chain that
-       merely ends in a self-signed certificate validates internally, but
-       no trust anchor of this peer has vouched for it. */
-    if (ssl->err == SSL_ALERT_NONE &&
-        (ssl->keys == NULL || ssl->keys->CAcerts == NULL))
-    {
-        ssl->err = SSL_ALERT_UNKNOWN_CA;
-        rc = MATRIXSSL_ERROR;
     }
 
     if (rc < 0)
@@ -172,145 +158,5 @@ int32_t tls13HandleUserCertCbResult(ssl_t *ssl, int32 cbRc)
     return PS_SUCCESS;
 }
 
-static
-int32_t psCheckValidationResult(ssl_t *ssl,
-        psX509Cert_t *leaf)
-{
-    psX509Cert_t *cert = leaf;
-
-    while (cert)
-    {
-        switch (cert->authStatus)
-        {
-        case PS_CERT_AUTH_FAIL_SIG:
-            ssl->err = SSL_ALERT_BAD_CERTIFICATE;
-            break;
-        case PS_CERT_AUTH_FAIL_REVOKED:
-            ssl->err = SSL_ALERT_CERTIFICATE_REVOKED;
-            break;
-        case PS_CERT_AUTH_FAIL_AUTHKEY:
-        case PS_CERT_AUTH_FAIL_PATH_LEN:
-            ssl->err = SSL_ALERT_BAD_CERTIFICATE;
-            break;
-        case PS_CERT_AUTH_FAIL_EXTENSION:
-            /* The math and basic constraints matched.  This case is
-                for X.509 extension mayhem */
-            if (cert->authFailFlags & PS_CERT_AUTH_FAIL_DATE_FLAG)
-            {
-                ssl->err = SSL_ALERT_CERTIFICATE_EXPIRED;
-            }
-            else if (cert->authFailFlags & PS_CERT_AUTH_FAIL_SUBJECT_FLAG)
-            {
-                /* expectedName was giving to NewSession but couldn't
-                    match what the peer gave us */
-                ssl->err = SSL_ALERT_CERTIFICATE_UNKNOWN;
-            }
-            else if (cert->next != NULL)
-            {
-                /* This is an extension problem in the chain.
-                    Even if it's minor, we are shutting it down */
-                ssl->err = SSL_ALERT_BAD_CERTIFICATE;
-            }
-            else
-            {
-                /* This is the case where we did successfully find the
-                    correct CA to validate the cert and the math passed
-                    but the     extensions had a problem.  Give app a
-                    different message in this case */
-                ssl->err = SSL_ALERT_ILLEGAL_PARAMETER;
-            }
-            break;
-        case PS_CERT_AUTH_FAIL_BC:
-        case PS_CERT_AUTH_FAIL_DN:
-            /* These two are pre-math tests.  If this was a problem in the
-                middle of the chain it means the chain couldn't even
-                validate itself.  If it is at the end it means a matching
-                CA could not be found */
-            if (cert->next != NULL)
-            {
-                ssl->err = SSL_ALERT_BAD_CERTIFICATE;
-            }
-            else
-            {
-                ssl->err = SSL_ALERT_UNKNOWN_CA;
-            }
-            break;
-
-        default:
-            break;
-        }
-        cert = cert->next;
-    }
-
-    if (ssl->err == SSL_ALERT_NONE)
-    {
-        return PS_SUCCESS;
-    }
-    else
-    {
-        return MATRIXSSL_ERROR;
-    }
-}
-
-static
-void psCheckSetPathLenFailure(ssl_t *ssl,
-        psX509Cert_t *leaf)
-{
-    psSize_t pathLen = 0;
-    psX509Cert_t *cert = leaf;
-    int32_t maxDepth;
-    psBool_t exceeded = PS_FALSE;
-
-    maxDepth = ssl->validateCertsOpts.max_verify_depth;
-
-    while (cert)
-    {
-        pathLen++;
-
-        if (maxDepth > 0)
-        {
-            exceeded = PS_FALSE;
-            psTraceIntInfo("max_verify_depth: %d\n", maxDepth);
-
-            /*
-              A maximum verification depth has been specified in session opts.
-            */
-            if (pathLen > maxDepth)
-            {
-                exceeded = PS_TRUE;
-            }
-            else if (pathLen == maxDepth)
-            {
-                /*
-                  We don't have the root in cert->next. So do the
-                  following: If the cert is _not_ self-signed, it must
-                  have a valid root cert as the issuer, since this
-                  is checked in matrixValidateCerts. Now take that root
-                  into account when checking the path length.
-                */
-                if (memcmpct(&cert->subject, &cert->issuer,
-                                sizeof(cert->subject)))
-                {
-                    /* Root cert causes depth to be exceeded. */
-                    exceeded = PS_TRUE;
-                }
-            }
-            if (exceeded)
-            {
-                /* Max depth exceeded. */
-                psTraceErrr("Error: max_verify_depth exceeded\n");
-                ssl->err = SSL_ALERT_UNKNOWN_CA;
-                cert->authStatus |= PS_CERT_AUTH_FAIL_PATH_LEN;
-                cert->authFailFlags |= PS_CERT_AUTH_FAIL_VERIFY_DEPTH_FLAG;
-            }
-        }
-        if (ssl->err != SSL_ALERT_NONE)
-        {
-            break; /* The first alert is the logical one to send */
-        }
-
-        cert = cert->next;
-    }
-}
 #  endif /* USE_CERT_VALIDATE */
 # endif /* USE_TLS_1_3 */
